@@ -48,7 +48,8 @@ PROBES = ["twin_frame_compared", "twin_raw_compared", "history_compared", "reuse
           "reuse_after_failed_recording", "reuse_from_data", "estimate_seeded_on_template", "reuse_not_compared_interrupt_inside_source_request",
           "copy_of_load_fil", "copy_of_sizes", "record_default_header", "record_shared_header", "aborted_recording_in_history",
           "array_then_single", "from_data_seeded_estimate", "copy_of_load_h5", "copy_of_derived", "hashseed_program_compared", "near_twin_prefix",
-          "frame_from_consolidated_cadence", "copy_of_consolidated", "reuse_with_num_subblocks_reassigned"]
+          "frame_from_consolidated_cadence", "copy_of_consolidated", "reuse_with_num_subblocks_reassigned",
+          "seeded_estimate_over_more_than_2**24_samples"]
 
 SEAM_KEYS = {"clock": ["clock_origin", "clock_jitter_seed"], "entropy": ["entropy_salt"], "listing": ["listing"], "scratch": ["scratch"],
              "cwd": ["chdir"]}
@@ -243,6 +244,17 @@ def generate(rng, tier):
         if rng.random() < 0.3:
             more, _ = gen_raw_program(rng, tier, ids_from=10, stem_prefix="q")
             sc["ops"] += more
+        r = rng.random()
+        if r < 0.2:
+            # a seeded channelised-noise estimate on a filterbank of the user's own (not the tiny ones of the RAW world)
+            sc["ops"].insert(rng.randrange(len(sc["ops"]) + 1),
+                             {"op": "pfb_estimate", "T": rng.choice([2, 4, 8]), "B": rng.choice([64, 256, 1024]),
+                              "factor": rng.choice([100, 1000]), "seed": gen_seed(rng)})
+        elif r < (0.26 if tier == "quick" else 0.35):
+            # SCALE: ... and of production size: more than 2**24 samples drawn for the estimate (chunked estimators that
+            # only engage beyond some size must carry the seed through)
+            T_, B_, f_ = rng.choice([(4, 8192, 2100), (4, 4096, 4200), (8, 2048, 8300), (4, 16384, 1100)])
+            sc["ops"].insert(rng.randrange(len(sc["ops"]) + 1), {"op": "pfb_estimate", "T": T_, "B": B_, "factor": f_, "seed": gen_seed(rng)})
     elif mode == "history":
         # prefix history H, then target R built from seeds after H
         H = []
